@@ -2285,6 +2285,61 @@ func c04NoZeroWindowUpdateFrame(c *Ctx) {
 	c.Floor(R, "window-update frames built from GetWindowUpdate", n, 2)
 }
 
+// C07.9: an ACK that the packer took out of the received-packet tracker is put on the wire. GetAckFrame clears the
+// tracker's "new ACK pending" state, so an ACK frame that is dequeued into payload.ack and then not serialised is lost
+// until the peer retransmits. The spec packer re-serialises Initial payloads itself (MarshalInitialPacketPayload): it
+// must read payload.ack like the stock serialiser (appendPacketPayload) does.
+func c07DequeuedAckIsSerialised(c *Ctx) {
+	const R = "C07.9"
+	ack := c.fld("", "payload", "ack")
+	for _, spec := range []struct{ recv, name string }{{"packetPacker", "appendPacketPayload"}, {"uPacketPacker", "MarshalInitialPacketPayload"}} {
+		f := c.fn("", spec.recv, spec.name)
+		reads := 0
+		for _, g := range helperRegion(f) {
+			eachInstr(g, func(in ssa.Instruction) {
+				switch x := in.(type) {
+				case *ssa.Field:
+					if fieldOfField(x) == ack {
+						reads++
+					}
+				case *ssa.FieldAddr:
+					if fieldOfAddr(x) == ack {
+						reads++
+					}
+				}
+			})
+		}
+		c.Check(reads > 0, R, "serialise:"+spec.recv+"."+spec.name+" writes the payload's ACK frame", c.P.Pos(f.Pos()),
+			"an Initial packet that carries frames AND an ACK is serialised from payload.frames only: the ACK is dequeued from the tracker (hasNewAck cleared) and never sent")
+	}
+}
+
+// C04.7: the final size a sender announces in RESET_STREAM / RESET_STREAM_AT counts against the peer's flow-control
+// limits like stream data does: it is the write offset (bytes the flow controller admitted), not a size that includes
+// data Write only buffered.
+func c04ResetFinalSizeWithinCredit(c *Ctx) {
+	const R = "C04.7"
+	fs := c.fld("internal/wire", "ResetStreamFrame", "FinalSize")
+	wo := c.fld("", "SendStream", "writeOffset")
+	n := 0
+	for _, f := range c.P.ScopeFuncs() {
+		if funcPkgPath(f) != modPath || f.Signature.Recv() == nil {
+			continue
+		}
+		if rn := namedOf(f.Signature.Recv().Type()); rn == nil || rn.Obj().Name() != "SendStream" {
+			continue
+		}
+		for _, in := range findInstrsLocal(f, StoresTo(fs)) {
+			n++
+			c.FuncsSet[funcName(f)] = true
+			v := stripConv(in.(*ssa.Store).Val)
+			c.Check(loadsPath(v, wo), R, fmt.Sprintf("credit:%s announces the write offset as final size#%d", funcName(f), n), c.P.InstrPos(in),
+				"writeOffset only advances by what the stream and connection flow controllers admitted; a final size taken from elsewhere (the reliable size includes data still buffered in nextFrame) can exceed the peer's limits and is answered with FLOW_CONTROL_ERROR")
+		}
+	}
+	c.Floor(R, "RESET_STREAM frames built by the send stream", n, 2)
+}
+
 // valueOf: the instruction as a value (nil if it is not one).
 func valueOf(in ssa.Instruction) ssa.Value {
 	v, _ := in.(ssa.Value)
